@@ -1,0 +1,51 @@
+//go:build verif
+
+package docker
+
+// Contracts for property C36 (URL components are operands, never options) on
+// the docker argument vectors. Comment-only file, compiled only under the
+// "verif" build tag; "//@" lines are read by govc. Byte 45 = '-'.
+
+// opsafe(s): s as an argv word of its own (or at the start of one) cannot be
+// read as an option.
+//@ pred opsafe(s) = len(s) >= 1 && s[0] != 45
+
+// Index of the container word in "docker <flags> exec --interactive
+// [--user U] [--workdir D] <container> <command words>".
+//@ spec cidx(t, user, wd) int = len(t.daemonConnectionFlags) + 2 + ((user != "" || t.user != "") ? 2 : 0) + (wd != "" ? 2 : 0)
+
+// The transport's fields are unexported and written only in this package;
+// the container and user names are never reassigned after NewTransport.
+//@ private dockerTransport
+
+//@ func NewTransport
+//@   ensures[fields] result1 == nil ==> unboxptr(result0, "dockerTransport") != nil && unboxptr(result0, "dockerTransport").container == container && unboxptr(result0, "dockerTransport").user == user
+
+// docker exec: the user name is the value word of "--user" (an option
+// argument, never an option of its own); the container name is the first
+// operand and, for a validated container, cannot be an option.
+//@ func (*dockerTransport).command
+//@   requires t != nil && opsafe(t.container)
+//@   at call docker.Command assert[verb] len(arg1) > cidx(t, user, workingDirectory) && arg1[len(t.daemonConnectionFlags)] == "exec" && arg1[len(t.daemonConnectionFlags)+1] == "--interactive"
+//@   at call docker.Command assert[user] (user != "" || t.user != "") ==> arg1[len(t.daemonConnectionFlags)+2] == "--user" && arg1[len(t.daemonConnectionFlags)+3] == (user != "" ? user : t.user)
+//@   at call docker.Command assert[container] arg1[cidx(t, user, workingDirectory)] == t.container && opsafe(arg1[cidx(t, user, workingDirectory)])
+//@   at call docker.Command assert[flags] forall k in 0..len(t.daemonConnectionFlags) :: arg1[k] == t.daemonConnectionFlags[k]
+
+// docker stop/start: "<flags> stop|start <container>".
+//@ func (*dockerTransport).changeContainerStatus
+//@   requires t != nil && opsafe(t.container)
+//@   at call docker.Command assert[container] len(arg1) == len(t.daemonConnectionFlags) + 2 && arg1[len(arg1)-1] == t.container && opsafe(arg1[len(arg1)-1])
+//@   at call docker.Command assert[verb] arg1[len(arg1)-2] == (stop ? "stop" : "start")
+
+// docker cp: "<flags> cp <localPath> <container>:<home>/<remoteName>"; the
+// container name leads the last word, which for a validated container cannot
+// be an option.
+//@ func (*dockerTransport).Copy
+//@   requires t != nil && opsafe(t.container)
+//@   at call docker.Command assert[verb] len(arg1) == len(t.daemonConnectionFlags) + 3 && arg1[len(arg1)-3] == "cp" && arg1[len(arg1)-2] == localPath
+//@   at call docker.Command assert[container] len(arg1) >= 1 && opsafe(arg1[len(arg1)-1]) && arg1[len(arg1)-1][0] == t.container[0]
+
+// The exported Command only forwards to command (after probing, which itself
+// goes through command).
+//@ func (*dockerTransport).Command
+//@   requires t != nil && opsafe(t.container)
